@@ -73,7 +73,18 @@ impl<P, T> Index<usize> for Table<P, T> {
     fn index(&self, index: usize) -> &Self::Output {
         #[cfg(feature = "verif-hooks")]
         crate::verif_hooks::tick();
-        &self.as_ref()[index]
+        // Do not go through `&Vec -> &[Node]`: that would (re-)borrow *all* nodes, including those
+        // that a mutable view or a mutable iterator on a different sub-tree (potentially on a
+        // different thread) currently holds a mutable reference to. Only borrow the node itself.
+        unsafe {
+            // do the bounds check
+            let len = self.0.get().as_ref().unwrap().len();
+            if index >= len {
+                panic!("index out of bounds: the len is {len} but the index is {index}");
+            }
+            let ptr_to_slice = self.0.get().as_ref().unwrap().as_ptr();
+            ptr_to_slice.add(index).as_ref().unwrap()
+        }
     }
 }
 
